@@ -67,6 +67,10 @@ def str_eq(a, b):
 def values_eq(vm, st, a, b):
     """structural equality as a z3 Bool (PartialEq of plain data)"""
     a, b = deref(vm, st, a), deref(vm, st, b)
+    if isinstance(a, Agg) and a.tag == 'Cow' and isinstance(b, StrV):
+        a = deref(vm, st, a.fields[0])
+    if isinstance(b, Agg) and b.tag == 'Cow' and isinstance(a, StrV):
+        b = deref(vm, st, b.fields[0])
     if isinstance(a, StrV) and isinstance(b, StrV):
         return str_eq(a, b)
     if z3.is_expr(a) and z3.is_expr(b):
@@ -655,6 +659,20 @@ def s_box_new(vm, st, callee, args, dest, ret_bb, m):
     return done(vm, st, dest, ret_bb, mk_box(st, args[0]))
 
 
+def s_box_new_uninit(vm, st, callee, args, dest, ret_bb, m):
+    return done(vm, st, dest, ret_bb, mk_box(st, None))
+
+
+def s_box_into_vec(vm, st, callee, args, dest, ret_bb, m):
+    # box_assume_init_into_vec_unsafe(Box<MaybeUninit<[T; N]>>): MaybeUninit.value -> ManuallyDrop -> MaybeDangling -> [T; N]
+    v = vm.load(st, box_ptr(args[0]))
+    try:
+        arr = v.fields[1].fields[0].fields[0]
+    except (AttributeError, IndexError, TypeError):
+        raise Unsupported('vec![..] layout')
+    return done(vm, st, dest, ret_bb, VecV(arr.fields))
+
+
 def s_box_as_mut(vm, st, callee, args, dest, ret_bb, m):
     b = vm.load(st, args[0])
     return done(vm, st, dest, ret_bb, box_ptr(b))
@@ -742,7 +760,15 @@ def s_opt_unwrap_or_default(vm, st, callee, args, dest, ret_bb, m):
     elif 'Vec<' in callee:
         dflt = VecV(())
     else:
-        raise Unsupported(f'default for {callee}')
+        mm = re.match(r'^Option::<(.*)>::unwrap_or_default$', callee)
+        fn = vm.resolve_local(f'<{mm.group(1)} as Default>::default', []) if mm else None
+        if fn is None:
+            raise Unsupported(f'default for {callee}')
+
+        def none_(s):
+            vm.push_call(s, fn, [], dest, ret_bb)
+            return None
+        return on_option(vm, st, args[0], none_, lambda s, p: vm.ret(s, dest, ret_bb, p))
     return on_option(vm, st, args[0], lambda s: vm.ret(s, dest, ret_bb, dflt), lambda s, p: vm.ret(s, dest, ret_bb, p))
 
 
@@ -856,12 +882,24 @@ def s_cow_from_str(vm, st, callee, args, dest, ret_bb, m):
     return done(vm, st, dest, ret_bb, Agg(1 if owned else 0, [as_str(vm, st, v)], 'Cow'))
 
 
-def uf_str(name):
-    f = z3.Function(name, z3.StringSort(), z3.StringSort())
+def heck_result(vm, name, arg):
+    """result of an uninterpreted string conversion (heck): one free String variable per (function, argument).
+    (A z3 uninterpreted function over strings makes the sequence solver crawl; a free variable per
+    syntactically distinct argument is the same abstraction for kernels that convert each name once.)"""
+    memo = vm.__dict__.setdefault('heck_memo', {})
+    if isinstance(arg, str):
+        key = (name, 'c:' + arg)
+    else:
+        key = (name, arg.sexpr())
+    if key not in memo:
+        memo[key] = z3.String(f'{name}({key[1][:40]})#{len(memo)}')
+    return memo[key]
 
+
+def uf_str(name):
     def h(vm, st, callee, args, dest, ret_bb, m):
         s = as_str(vm, st, args[0])
-        return done(vm, st, dest, ret_bb, StrV(f(s.z())))
+        return done(vm, st, dest, ret_bb, StrV(heck_result(vm, name, s.s)))
     h.__name__ = f's_uf_{name}'
     return h
 
@@ -905,12 +943,13 @@ def s_binary_search_str(vm, st, callee, args, dest, ret_bb, m):
             return done(vm, st, dest, ret_bb, Agg(1, [bv(bisect.bisect_left([n.encode() for n in names], needle.s.encode()), 64)], 'Result'))
         # unsorted: emulate the real algorithm (size halving as in core)
         return done(vm, st, dest, ret_bb, _binsearch_concrete(names, needle.s))
+    # symbolic needle: two branches - "member" (symbolic index tied to the needle) and "not a member"
     idx = z3.FreshConst(z3.BitVecSort(64), 'bs_idx')
     member = z3.Or(*[needle.z() == z3.StringVal(n) for n in names])
-    hit = z3.And(*[z3.Implies(idx == bv(i, 64), needle.z() == z3.StringVal(n)) for i, n in enumerate(names)], z3.ULT(idx, bv(len(names), 64)))
+    hit = z3.Or(*[z3.And(idx == bv(i, 64), needle.z() == z3.StringVal(n)) for i, n in enumerate(names)])
 
     def found(s):
-        s.pc.append(simp(hit))
+        s.pc.append(hit)
         return vm.ret(s, dest, ret_bb, Agg(0, [idx], 'Result'))
 
     def missing(s):
@@ -1076,7 +1115,7 @@ TABLE = [
     (r'^core::slice::<impl \[.*\]>::get::<usize>$', s_slice_get),
     (r'^core::slice::<impl \[&str\]>::binary_search$', s_binary_search_str),
     (r'^(std::slice|alloc::slice|std::vec)::<impl \[.*\]>::into_vec', s_into_vec),
-    (r'^std::slice::<impl \[&str\]>::concat::<str>$', s_str_concat),
+    (r'^(std::|alloc::)?slice::<impl \[&str\]>::concat::<str>$', s_str_concat),
     (r'^Vec::<.*>::(new|with_capacity)$', s_vec_new),
     (r'^Vec::<.*>::push$', s_vec_push),
     (r'^Vec::<.*>::len$', s_vec_len),
@@ -1094,6 +1133,8 @@ TABLE = [
     (r'^<Vec<.*> as Extend<.*>>::extend::<', s_vec_extend),
     (r'^std::vec::from_elem::<', s_from_elem),
     (r'^(std::boxed::)?Box::<.*>::new$', s_box_new),
+    (r'^(std::boxed::)?Box::<.*>::new_uninit$', s_box_new_uninit),
+    (r'^std::boxed::box_assume_init_into_vec_unsafe::<', s_box_into_vec),
     (r'^<std::boxed::Box<.*> as AsMut<.*>>::as_mut$', s_box_as_mut),
     (r'^<std::boxed::Box<.*> as AsRef<.*>>::as_ref$', s_box_as_mut),
     (r'^BTreeMap::<std::string::String, .*>::get::<', s_map_get),
@@ -1149,7 +1190,7 @@ def s_into(vm, st, callee, args, dest, ret_bb, m):
     a, b = mm.group(1), mm.group(2)
     src, dst = (a, b) if mm.group(3) == 'into' else (b, a)
     v = args[0]
-    if dst.startswith('Cow<'):
+    if dst.startswith('Cow<') or (src.startswith('impl Into<Cow') ):
         val = deref(vm, st, v)
         if isinstance(val, Agg) and val.tag == 'Cow':
             return done(vm, st, dest, ret_bb, val)
